@@ -19,6 +19,12 @@ Theorem C20_holds_outside : forall nfd ops,
   wf_C20 nfd ops = true -> no_defect ops = true -> ok_C20 ops (run_C20 nfd ops) = true.
 Proof. exact holds_outside. Qed.
 
+(** ... and on those histories the model raises neither finding's ghost tag: the tags mark the
+    misbehaving branches only *)
+Theorem C20_no_tag_outside : forall nfd ops,
+  wf_C20 nfd ops = true -> no_defect ops = true -> fst (tags_C20 nfd ops) = [].
+Proof. exact no_tag_outside. Qed.
+
 (** after ANY history (ill-formed ones and the recorded findings included): the descriptor number
     is closed through the runtime and handed out again; a coroutine (an identity not used before)
     that waits for either direction of the new socket gets exactly its interest and its own token
@@ -72,11 +78,11 @@ Proof. exact no_event_no_waiter. Qed.
 
 Example C20_nonvacuous :
   let a := 15128819530526934229 in let b := 440535360 in
-  let ops := [Wait true a 0; Wait false b 1; Ready true 0; WaitT false a 0; Ready false 1;
-              Close 0; Reopen 0; Wait true a 0; Ready true 0; Wait false a 0; Ready false 0;
-              DelDir false 1; DelDir true 1; Ready false 2] in
-  wf_C20 3 ops = true /\ no_defect ops = true
-  /\ run_C20 3 ops =
+  let ops := [Wait true a 1; Wait false b 2; Ready true 1; WaitT false a 1; Ready false 2;
+              Close 1; Reopen 1; Wait true a 1; Ready true 1; Wait false a 1; Ready false 1;
+              DelDir false 2; DelDir true 2; Ready false 3] in
+  wf_C20 4 ops = true /\ no_defect ops = true
+  /\ run_C20 4 ops =
      [OReg true (Some (false, true, a)); OReg true (Some (true, false, b)); OEvent a true [a];
       ORegT true (Some (true, true, a)) true; OEvent b true [b];
       OClose true; OReopen; OReg true (Some (false, true, a)); OEvent a true [a];
@@ -86,6 +92,7 @@ Proof. repeat split; vm_compute; reflexivity. Qed.
 
 Print Assumptions C20_roundtrip.
 Print Assumptions C20_holds_outside.
+Print Assumptions C20_no_tag_outside.
 Print Assumptions C20_reuse_wakes.
 Print Assumptions C20_refuted_registration_outlives_wait.
 Print Assumptions C20_refuted_registration_outlives_wait_cross.
